@@ -117,6 +117,32 @@ def relax_value(rng: random.Random, res: T.Resolver, t: list, v):
     return v
 
 
+def alt_containers(rng: random.Random, res: T.Resolver, t: list, v):
+    """The same value carried by other container types that serialize() documents as accepted: tuple for list, bytearray /
+    list / tuple of integers for bytes, bytes / bytearray for str (UTF-8 strings)."""
+    k = t[0]
+    if k in ("arr", "var"):
+        el = t[1]
+        if el[0] == "utf8" and isinstance(v, str):
+            b = v.encode("utf-8")
+            return rng.choice([b, bytearray(b), v])
+        if el[0] == "byte":
+            b = bytes(v)
+            return rng.choice([b, bytearray(b), list(b), tuple(b)])
+        if isinstance(v, (list, tuple)):
+            items = [alt_containers(rng, res, el, x) for x in v]
+            return tuple(items) if rng.random() < 0.5 else items
+        return v
+    if k == "ref" and isinstance(v, dict):
+        return alt_composite(rng, res.ref_sec(t), v)
+    return v
+
+
+def alt_composite(rng: random.Random, sec: T.Sec, v: dict) -> dict:
+    types = {n: t for n, t in sec.fields if n is not None}
+    return {n: (alt_containers(rng, sec.res, types[n], x) if n in types else x) for n, x in v.items()}
+
+
 # ---- exhaustive shape enumeration (every combination of array lengths and union variants; contents are defaults) -----
 def count_shapes(res: T.Resolver, t: list, cap: int = 100000) -> int:
     k = t[0]
